@@ -42,6 +42,9 @@ type c14Case struct {
 	JSON   bool     `json:"json,omitempty"`
 	Ages   []int64  `json:"ages,omitempty"` // real fractions: document ages in ms before "now" (negative = future)
 	Layout []int    `json:"layout,omitempty"`
+	// Redeliver: every fraction is ingested as two bulks, the second re-sending the first document followed by
+	// the newest and then the remaining ones (the newest new document is not the last one of its bulk)
+	Redeliver bool `json:"redeliver,omitempty"`
 	Form   string   `json:"form,omitempty"`
 	Query  string   `json:"query,omitempty"`
 	Asc    bool     `json:"asc,omitempty"`
@@ -189,7 +192,7 @@ func c14Grid(docs []refdb.Doc, infos []*frac.Info) []uint64 {
 }
 
 // c14Real builds one store layout and checks every grid interval in three forms.
-func c14Real(r *vlib.Run, ages []int64, layout []int, only *c14Case) {
+func c14Real(r *vlib.Run, ages []int64, layout []int, redeliver bool, only *c14Case) {
 	dir := vfrac.MkTmp("c14")
 	defer os.RemoveAll(dir)
 	now := time.Now().UnixMilli()
@@ -218,7 +221,7 @@ func c14Real(r *vlib.Run, ages []int64, layout []int, only *c14Case) {
 			for i, qf := range grid {
 				for _, qt := range grid[i:] {
 					asc := (qf+qt)%2 == 1
-					c := c14Case{Kind: "real", Ages: ages, Layout: layout, Form: form, Query: pq.Text, QF: qf, QT: qt, Asc: asc, MIDs: []uint64{uint64(now)}}
+					c := c14Case{Kind: "real", Ages: ages, Layout: layout, Redeliver: redeliver, Form: form, Query: pq.Text, QF: qf, QT: qt, Asc: asc, MIDs: []uint64{uint64(now)}}
 					if only != nil && (only.QF != qf || only.QT != qt || only.Query != pq.Text || only.Form != form) {
 						continue
 					}
@@ -226,7 +229,7 @@ func c14Real(r *vlib.Run, ages []int64, layout []int, only *c14Case) {
 					qpr, err := searcher.SearchDocs(context.Background(), fracs, vfrac.Params(pq, qf, qt, asc, 100, true))
 					wantIDs, wantTotal := refdb.Search(docs, pq.Ref, qf, qt, asc, 100)
 					// signature is expressed relative to `now` so that it is stable across runs
-					sig := fmt.Sprintf("real ages=%v layout=%v form=%s q=%s qf=now%+d qt=now%+d", ages, layout, form, pq.Text, int64(qf)-now, int64(qt)-now)
+					sig := fmt.Sprintf("real ages=%v layout=%v redeliver=%v form=%s q=%s qf=now%+d qt=now%+d", ages, layout, redeliver, form, pq.Text, int64(qf)-now, int64(qt)-now)
 					if err != nil {
 						r.Violation(sig+" error", c, err.Error())
 						continue
@@ -249,11 +252,19 @@ func c14Real(r *vlib.Run, ages []int64, layout []int, only *c14Case) {
 				part = append(part, docs[i])
 			}
 		}
-		d, m := vfrac.BuildBulk(part, 1)
-		if err := fm.Append(context.Background(), d, m); err != nil {
-			panic(err)
+		bulks := [][]refdb.Doc{part}
+		if redeliver && len(part) >= 3 {
+			second := []refdb.Doc{part[0], part[len(part)-1]}
+			second = append(second, part[1:len(part)-1]...)
+			bulks = [][]refdb.Doc{{part[0]}, second}
 		}
-		fm.WaitIdle()
+		for _, b := range bulks {
+			d, m := vfrac.BuildBulk(b, 1)
+			if err := fm.Append(context.Background(), d, m); err != nil {
+				panic(err)
+			}
+			fm.WaitIdle()
+		}
 		if fi < nfr-1 {
 			fm.SealForcedForTests()
 		}
@@ -294,7 +305,7 @@ func TestVerifC14(t *testing.T) {
 		case "info":
 			c14Info(r, rc)
 		case "real":
-			c14Real(r, rc.Ages, rc.Layout, &rc)
+			c14Real(r, rc.Ages, rc.Layout, rc.Redeliver, &rc)
 		}
 		r.Finish(t, "model_checking", "replay", nil, nil)
 		return
@@ -452,13 +463,16 @@ func TestVerifC14(t *testing.T) {
 		if r.Expired() {
 			return
 		}
-		c14Real(r, layouts[i].ages, layouts[i].layout, nil)
+		c14Real(r, layouts[i].ages, layouts[i].layout, false, nil)
+		if len(layouts[i].ages) >= 3 && layouts[i].layout[len(layouts[i].layout)-1] == 0 && (r.Thorough() || i%3 == 0) {
+			c14Real(r, layouts[i].ages, layouts[i].layout, true, nil) // one fraction, ingested with a re-delivery
+		}
 		r.Distinct("nontrivial", fmt.Sprint("real", layouts[i]))
 	})
 	r.Sample(c14Case{Kind: "real", Ages: layouts[len(layouts)/2].ages, Layout: layouts[len(layouts)/2].layout, Form: "reloaded-frac-cache", Query: "*"})
 	ev := r.Get("evaluations")
 	r.Finish(t, "model_checking",
-		fmt.Sprintf("bitmask: all sizes<=%d, all l<=r, all masks for size<=%d and all masks with <=2 bits above; distribution: from in 4 offsets x 0..%d buckets x on/off-bucket end, added MIDs = subsets of size<=3 of a half-bucket grid over [from-2b,to+2b], all ordered query pairs, direct and after JSON round trip (soundness: a MID in range implies intersecting); Info borders; real fractions (scaled block constants: 4 IDs per block, so the 7- and 8-document fractions span 3 ID blocks): subsets (quick: sizes 1-3 and 7-8, thorough: all) of 8 age slots (25h, 24h+30s, 11min, 10min-1ms, 5min, 61s, 0, -60s) in one or two fractions, plus sparse-minute shapes (6 documents placed +-10 s around the bucket border offset of the oldest document, offsets 15/30/45 s, empty minutes in between), three forms (last fraction active / all sealed / reloaded via .frac-cache), queries * and k:a over all ordered pairs of a border grid (document MIDs +-1, occupancy bucket borders, creation time, 0, max) vs reference search over all documents", maxSize, fullMask, nb),
+		fmt.Sprintf("bitmask: all sizes<=%d, all l<=r, all masks for size<=%d and all masks with <=2 bits above; distribution: from in 4 offsets x 0..%d buckets x on/off-bucket end, added MIDs = subsets of size<=3 of a half-bucket grid over [from-2b,to+2b], all ordered query pairs, direct and after JSON round trip (soundness: a MID in range implies intersecting); Info borders; real fractions (scaled block constants: 4 IDs per block, so the 7- and 8-document fractions span 3 ID blocks): subsets (quick: sizes 1-3 and 7-8, thorough: all) of 8 age slots (25h, 24h+30s, 11min, 10min-1ms, 5min, 61s, 0, -60s) in one or two fractions (every third single-fraction layout again ingested as two bulks with a re-delivered document and the newest document not last), plus sparse-minute shapes (6 documents placed +-10 s around the bucket border offset of the oldest document, offsets 15/30/45 s, empty minutes in between), three forms (last fraction active / all sealed / reloaded via .frac-cache), queries * and k:a over all ordered pairs of a border grid (document MIDs +-1, occupancy bucket borders, creation time, 0, max) vs reference search over all documents", maxSize, fullMask, nb),
 		map[string]any{
 			"states":                        r.DistinctCount("nontrivial"),
 			"transitions":                   ev,
